@@ -364,14 +364,27 @@ class Models:
                 M.pcall(c.I, c.st, c.body, c.bbi, c.t, 'euclidean division by zero / overflow', lo > 0 or hi < -1, f"divisor in [{lo}, {hi}]")
                 return c.I.top(c.st, c.dty, 'euclid')
             k = lo
-            # a = k*q + r with 0 <= r < k (floor division): q is a fresh symbol tied to a by two facts
-            alo, ahi = c.st.num.rng(a.form)
-            q = c.I.fresh_int(c.st, a.ty, 'fdiv', alo // k, ahi // k)
-            r = a.form.sub(q.form.scale(k))
-            outs = c.I.assume(c.st, ('and', ('cmp', 'ge', r, Form.const(0)), ('cmp', 'le', r, Form.const(k - 1))), True)
-            if c.c['decl'].endswith('div_euclid'):
-                return [(s2, q) for s2 in outs]
-            return [(s2, VInt(r, a.ty)) for s2 in outs]
+            if a.form.c % k == 0 and all(kk % k == 0 for _, kk in a.form.terms):
+                # every value of the dividend is a multiple of k: exact
+                qf = Form(a.form.c // k, tuple((s_, kk // k) for s_, kk in a.form.terms))
+                return VInt(qf, a.ty) if c.c['decl'].endswith('div_euclid') else c.I.cint(0, a.ty)
+            # floor division through the truncating quotient and remainder: three cases, as a hand-written
+            # implementation would split them (keeps the Div/Rem machinery of the numeric domain)
+            want_q = c.c['decl'].endswith('div_euclid')
+            out = []
+            kk = VInt(Form.const(k), a.ty)
+            for s2 in c.I.assume(c.st.copy(), ('cmp', 'ge', a.form, Form.const(0)), True):
+                qf = c.I.int_binop(s2, 'Div', a, kk, a.ty)
+                rf = a.form.sub(qf.scale(k))
+                out.append((s2, VInt(qf if want_q else rf, a.ty)))
+            for s2 in c.I.assume(c.st.copy(), ('cmp', 'lt', a.form, Form.const(0)), True):
+                qf = c.I.int_binop(s2, 'Div', a, kk, a.ty)
+                rf = a.form.sub(qf.scale(k))
+                for s3 in c.I.assume(s2.copy(), ('cmp', 'eq', rf, Form.const(0)), True):
+                    out.append((s3, VInt(qf if want_q else Form.const(0), a.ty)))
+                for s3 in c.I.assume(s2.copy(), ('cmp', 'lt', rf, Form.const(0)), True):
+                    out.append((s3, VInt(qf.addc(-1) if want_q else rf.addc(k), a.ty)))
+            return out
 
         @regp(r'^core::num::<impl i\d+>::unsigned_abs$')
         def uabs(c):
